@@ -24,8 +24,9 @@ RULE = ('one trash-empty (all modes) or trash-rm per case over trash content wit
         'chains, to files and to directories outside), directory payloads containing such links at depth <= 4, odd info names, trash '
         'dirs reached through symlinked HOME / XDG_DATA_HOME; non-trivial = at least one purged payload is or contains a symlink '
         'to something outside; distinct = (command, link kinds purged, depth)')
-ASSUMPTIONS = ["a trash directory whose files/ or info/ is itself a symlink (foreign damage) is not generated: what 'under files/' means there is debatable"]
-PROBES = ['link-payload-purged', 'link-inside-dir-purged', 'dangling-purged', 'through-symlinked-home', 'rm-command', 'empty-command',
+ASSUMPTIONS = ['the checks run as root: the permission failures an ordinary user meets (unlink inside a read-only directory: EACCES) are emulated by injected persistent conditions',
+               "a trash directory whose files/ or info/ is itself a symlink (foreign damage) is not generated: what 'under files/' means there is debatable"]
+PROBES = ['permission-conditions', 'link-payload-purged', 'link-inside-dir-purged', 'dangling-purged', 'through-symlinked-home', 'rm-command', 'empty-command',
           'mutating-ops-monitored', 'rmtree-used']
 TECHNIQUE = 'deterministic simulation with an in-kernel containment monitor on every mutating op plus full-snapshot frame check'
 LEVEL_TEXT = ('seeded exploration of trash contents; containment is evaluated at the op that would break it (resolved target of each '
@@ -100,6 +101,24 @@ def gen(rng):
         tdir = rng.choice(locs)[0]
         steps.append(['d', tdir + '/files', 0o700])
         steps.append(['l', tdir + '/files/orphanlink', home + '/precious'])
+    faults = []
+    if rng.random() < 0.3:
+        # a trashed tree with a read-only sub-directory that holds a link to the outside: for an
+        # ordinary (non-root) user unlinking inside it fails with EACCES - emulated by a condition
+        tdir = rng.choice(locs)[0]
+        steps.append(['d', tdir + '/files', 0o700])
+        steps.append(['d', tdir + '/info', 0o700])
+        steps.append(['d', tdir + '/files/rotree', 0o755])
+        steps.append(['d', tdir + '/files/rotree/vendor', 0o555])
+        steps.append(['l', tdir + '/files/rotree/vendor/data', home + '/precious'])
+        steps.append(['f', tdir + '/files/rotree/vendor/file', 'v', 0o444])
+        steps.append(['f', tdir + '/info/rotree.trashinfo', G.fmt_info(TG.pct(home + '/w/rotree'), '2021-01-01T00:00:00'), 0o600])
+        faults.append({'kind': 'cond', 'what': 'dir_not_writable', 'dir': '%RESOLVE%' + tdir + '/files/rotree/vendor'})
+        if rng.random() < 0.5:
+            # the payload itself is a link whose unlink fails with EIO
+            steps.append(['l', tdir + '/files/eiolink', home + '/precious'])
+            steps.append(['f', tdir + '/info/eiolink.trashinfo', G.fmt_info(TG.pct(home + '/w/eiolink'), '2021-01-02T00:00:00'), 0o600])
+            faults.append({'kind': 'cond', 'what': 'immutable', 'entry': '%RESOLVE%' + tdir + '/files/eiolink'})
     if rng.random() < 0.6:
         argv = ['trash-empty'] + rng.choice([[], [], ['0'], ['1'], ['-v'], ['-f', '3'], ['--trash-dir', locs[0][0]]])
     else:
@@ -108,11 +127,30 @@ def gen(rng):
         'world': {'mounts': L['mounts'], 'steps': steps},
         'procs': [{'argv': argv, 'env': env, 'cwd': rng.choice(['/', home, home + '/precious']), 'uid': L['uid']}],
         'dirsalt': rng.randrange(1 << 30),
+        'faults': faults,
     }
 
 
 def check(sim, case, st):
     sim.setup(case)
+    if case.get('faults'):
+        fixed = []
+        pre = sim.snap()
+        for f in case['faults']:
+            f = dict(f)
+            for key in ('dir', 'entry'):
+                if isinstance(f.get(key), str) and f[key].startswith('%RESOLVE%'):
+                    raw = f[key][len('%RESOLVE%'):]
+                    d_, b_ = posixpath.split(raw)
+                    rd = ML.resolve(pre, d_ if key == 'entry' else raw)
+                    if rd is None:
+                        f = None
+                        break
+                    f[key] = (rd + '/' + b_) if key == 'entry' else rd
+            if f:
+                fixed.append(f)
+        sim.set_faults(fixed)
+        st.probes['permission-conditions'] += len(fixed)
     spec = case['procs'][0]
     argv = spec['argv']
     env, uid = spec.get('env', {}), spec.get('uid', 1000)
